@@ -163,7 +163,8 @@ def check_seq(prop, tier, seed):
             fl = flags if prop != "C13" else ["-seed", str(seed), "-sets", "30" if quick else "120"]
             if title.startswith("1 key"):
                 fl = ["-seed", str(seed), "-frac", "0.05", "-finalfrac", "1.0"]
-            eng = engines + (",tikv-regions" if prop == "C13" else "")   # C13: also the TiKV adapter's own partition answer, from real regions
+            # C13 (and C03's final sweeps): also the TiKV adapter's own partition answer, from real regions split at run time
+            eng = engines + (",tikv-regions" if prop in ("C13", "C03") else "")
             rep, traces, agrees = seqrun(work, binp, behs, eng, 16, fl,
                                          agree=(prop == "C12"), cmd=PROP_CMD.get(prop, "seqrun"), name="seqrun_" + title.split(",")[0].replace(" ", "_"))
             cov["evaluations"] += rep.get("behaviours", 0)
